@@ -20,6 +20,18 @@ def move(s):
 edit('syntax/lexer.go', move)
 edit('interp/runner.go', lambda s: s.replace('func (r *Runner) loopStmtsBroken(ctx context.Context, stmts []*syntax.Stmt) bool {','func (r *Runner) loopStmtsBroken(ctx context.Context, body []*syntax.Stmt) bool {').replace('for _, stmt := range stmts {\n\t\tr.stmt(ctx, stmt)\n\t\tif r.contnEnclosing','for _, stmt := range body {\n\t\tr.stmt(ctx, stmt)\n\t\tif r.contnEnclosing'))
 edit('expand/expand.go', lambda s: s+'\n// harmlessHelper is not used by anything that matters.\nfunc harmlessHelper(a, b int) int {\n\tif a > b {\n\t\treturn a\n\t}\n\treturn b\n}\n\nvar _ = harmlessHelper\n')
+# second batch: refactors around the later rules
+edit('interp/handler.go', lambda s: re.sub(r'\bkillTimeout\b','killAfter',s))
+def renameIn(s, start, old, new):
+    i=s.index(start); j=s.index('\n}\n',i)+3
+    return s[:i]+re.sub(r'\b'+old+r'\b',new,s[i:j])+s[j:]
+edit('interp/runner.go', lambda s: renameIn(s,'func (r *Runner) fillExpandConfig(','r2','sub'))
+edit('interp/api.go', lambda s: s.replace('\tr.exit = exitStatus{}\n\tr.filename = ""\n','\tr.filename = ""\n\tr.exit = exitStatus{}\n'))
+edit('expand/expand.go', lambda s: renameIn(s,'func formatInto(','max','limit'))
+edit('syntax/lexer.go', lambda s: s.replace('func (p *Parser) peek() byte {\n\tif int(p.bsp) >= len(p.bs) {\n\t\tp.fill()\n\t}\n\tif int(p.bsp) >= len(p.bs) {','func (p *Parser) peek() byte {\n\tif int(p.bsp) >= len(p.bs) {\n\t\tp.fill()\n\t}\n\tif len(p.bs) <= int(p.bsp) {'))
+edit('syntax/printer.go', lambda s: s.replace('\thdocs := p.pendingHdocs\n','\tvar hdocs []*Redirect\n\thdocs = p.pendingHdocs\n'))
+edit('syntax/simplify.go', lambda s: s.replace('\t\tif node.Op == TsMatchShort {\n\t\t\ts.modified = true\n\t\t\tnode.Op = TsMatch\n\t\t}','\t\tif node.Op == TsMatchShort {\n\t\t\tnode.Op = TsMatch\n\t\t\ts.modified = true\n\t\t}'))
+edit('interp/test.go', lambda s: s.replace('\t\t\t_, ok := stdinTerminal(r.stdin)\n\t\t\treturn ok\n','\t\t\t_, isTerm := stdinTerminal(r.stdin)\n\t\t\treturn isTerm\n'))
 PY
 GOFLAGS=-mod=mod GOPROXY=off go build ./...
 cd /verif
